@@ -118,6 +118,10 @@ def generate_indexed(index, run_seed, tier):
     """The first len(SYSTEMATIC) run indices are an enumerated family of boundary cases; the rest is seeded sampling."""
     if index < len(SYSTEMATIC):
         cf = stream(run_seed, "order")
-        return {"property": PROPERTY, "program": SYSTEMATIC[index],
+        entry = SYSTEMATIC[index]
+        plan = {"property": PROPERTY, "program": entry["program"] if isinstance(entry, dict) else entry,
                 "config": {"order_keys": cc.order_keys(cf, 6 if tier == "quick" else 10), "systematic": True}}
+        if isinstance(entry, dict) and entry.get("lets"):
+            plan["lets"] = entry["lets"]
+        return plan
     return generate(run_seed, tier)
